@@ -7,6 +7,7 @@ import (
 	"context"
 	"fmt"
 	"strings"
+	"time"
 
 	"github.com/agglayer/aggkit/aggsender"
 	"github.com/agglayer/aggkit/aggsender/types"
@@ -17,13 +18,59 @@ func init() { scenarios["epoch"] = Scenario{Gen: epGen, Replay: epReplay} }
 type fakeBlockNotifier struct{ ch chan types.EventNewBlock }
 
 func (f *fakeBlockNotifier) Subscribe(string) <-chan types.EventNewBlock { return f.ch }
-func (f *fakeBlockNotifier) GetCurrentBlockNumber() uint64              { return 0 }
-func (f *fakeBlockNotifier) String() string                             { return "fake" }
+func (f *fakeBlockNotifier) GetCurrentBlockNumber() uint64               { return 0 }
+func (f *fakeBlockNotifier) String() string                              { return "fake" }
 
-type recSub struct{ evs []types.EpochEvent }
+// records synchronously and forwards to the node's default publisher, whose one subscriber reads only at the end
+type recSub struct {
+	evs  []types.EpochEvent
+	real *aggsender.GenericSubscriberImpl[types.EpochEvent]
+	ch   <-chan types.EpochEvent
+}
 
 func (r *recSub) Subscribe(string) <-chan types.EpochEvent { return nil }
-func (r *recSub) Publish(e types.EpochEvent)               { r.evs = append(r.evs, e) }
+func (r *recSub) Publish(e types.EpochEvent) {
+	r.evs = append(r.evs, e)
+	if r.real != nil {
+		r.real.Publish(e)
+	}
+}
+
+// a subscriber of the default publisher that was busy while the epochs went by must still get every announcement
+func (s *epState) drain(r *Run) {
+	if s.sub == nil || s.sub.ch == nil || len(s.sub.evs) == 0 {
+		return
+	}
+	got := map[uint64]int{}
+	n := 0
+	wait := 2 * time.Second
+	if s.lateFailed {
+		wait = time.Millisecond // already reported once in this run: do not wait for what will not come
+	}
+	timeout := time.After(wait)
+loop:
+	for n < len(s.sub.evs) {
+		select {
+		case e := <-s.sub.ch:
+			got[e.Epoch]++
+			n++
+		case <-timeout:
+			break loop
+		}
+	}
+	r.Evals++
+	for _, e := range s.sub.evs {
+		got[e.Epoch]--
+	}
+	for ep, k := range got {
+		if k != 0 {
+			s.lateFailed = true
+			r.Fail(fmt.Sprintf("a subscriber of the default publisher that read late received %d of %d announcements (epoch %d: %+d)", n, len(s.sub.evs), ep, k), append([]string{}, s.lines...))
+			break
+		}
+	}
+	s.sub.ch = nil
+}
 
 type epState struct {
 	S, N, P uint64
@@ -32,12 +79,12 @@ type epState struct {
 	cancel  context.CancelFunc
 	valid   bool
 	// monitor state (property decided on implementation observations only)
-	blocks   []uint64
-	notified map[uint64]uint64 // epoch -> block
-	lastEp   uint64
-	lines    []string
+	blocks     []uint64
+	notified   map[uint64]uint64 // epoch -> block
+	lastEp     uint64
+	lines      []string
+	lateFailed bool
 }
-
 
 func (s *epState) stop() {
 	if s.cancel != nil {
@@ -64,10 +111,12 @@ func epExec(r *Run, s *epState, line string) {
 	r.Count("op:" + ws[0])
 	switch ws[0] {
 	case "cfg":
+		s.drain(r)
 		s.stop()
 		s.S, s.N, s.P = bigOf(ws[1]).Uint64(), bigOf(ws[2]).Uint64(), bigOf(ws[3]).Uint64()
 		s.bn = &fakeBlockNotifier{ch: make(chan types.EventNewBlock)}
-		s.sub = &recSub{}
+		s.sub = &recSub{real: aggsender.NewGenericSubscriberImpl[types.EpochEvent]()}
+		s.sub.ch = s.sub.real.Subscribe("verif")
 		s.blocks, s.notified, s.lastEp, s.lines = nil, map[uint64]uint64{}, 0, []string{line}
 		n, err := aggsender.NewEpochNotifierPerBlock(s.bn, lg(),
 			aggsender.ConfigEpochNotifierPerBlock{StartingEpochBlock: s.S, NumBlockPerEpoch: uint(s.N), EpochNotificationPercentage: uint(s.P)}, s.sub)
@@ -141,7 +190,7 @@ func epExec(r *Run, s *epState, line string) {
 // enumerate all strictly increasing sequences inside [lo, hi] (as subsets), feeding each to a fresh notifier
 func epGen(r *Run, rng *Rng) {
 	s := &epState{}
-	defer s.stop()
+	defer func() { s.drain(r); s.stop() }()
 	runSeq := func(S, N, P uint64, seq []uint64) {
 		epExec(r, s, fmt.Sprintf("cfg %d %d %d", S, N, P))
 		for _, b := range seq {
@@ -246,7 +295,7 @@ func epGen(r *Run, rng *Rng) {
 
 func epReplay(r *Run, lines []string) {
 	s := &epState{}
-	defer s.stop()
+	defer func() { s.drain(r); s.stop() }()
 	for _, l := range lines {
 		epExec(r, s, l)
 	}
